@@ -678,6 +678,23 @@ let () =
           | _ -> "ERR" in
         if m = obs then Printf.printf "OK %s\n" id
         else Printf.printf "MISMATCH %s model=%s\n" id m
+      | ["I"; id; ops; obs] ->
+        (* the init segment's bytes: C01's encoder on the tree of the model's final state; then C01's decoder on
+           those bytes must return an equal tree, a fragmented init and a trex for every track (roundtrip_ok) *)
+        Hashtbl.reset avc_tab; Hashtbl.reset hevc_tab;
+        let ops = if ops = "-" then [] else L.map parse_op (split_on ';' ops) in
+        let (_, s) = run avc_parse hevc_parse ops in
+        (match C19TreeModel.tree_of s with
+         | None -> Printf.printf "OK %s notree\n" id
+         | Some ts ->
+           let m = match C01Model.encode_seq false ts with
+             | Base.Ok bs ->
+               let sz = L.fold_left (fun a t -> a + int_of_n (C01Model.size_box t)) 0 ts in
+               Printf.sprintf "%d|%s" sz (hex_of_str bs)
+             | _ -> "ENCERR" in
+           if m <> obs then Printf.printf "MISMATCH %s model=%s\n" id (if S.length m > 3000 then S.sub m 0 3000 else m)
+           else if not (C19TreeModel.roundtrip_ok s) then Printf.printf "MISMATCH %s model=roundtrip_ok-false\n" id
+           else Printf.printf "OK %s\n" id)
       | ["GEN"; seed; cnt] -> G.run (int_of_string seed) (int_of_string cnt)
       | ["RA"; id; r; obs] ->
         let r = parse_avcrec r in
